@@ -62,6 +62,19 @@ func noCRLF(b []byte) []byte {
 // serve3: the RESP3 side of the fake server: handshake, MULTI/EXEC.  Returns true when it answered.
 func (s *server) serve3(c net.Conn, name string, argv []string, inMulti *bool, queued *[][]string) bool {
 	switch {
+	case name == "HELLO" && s.cluster:
+		c.Write([]byte("%1\r\n+proto\r\n:3\r\n"))
+	case name == "CLUSTER" && s.cluster:
+		c.Write([]byte("*1\r\n*3\r\n:0\r\n:16383\r\n*3\r\n$9\r\n127.0.0.1\r\n:7001\r\n$4\r\nnode\r\n"))
+	case name == "INCR" && !*inMulti && len(argv) == 2:
+		s.mu.Lock()
+		if s.execs == nil {
+			s.execs = map[string]int{}
+		}
+		s.execs[argv[1]]++
+		n := s.execs[argv[1]]
+		s.mu.Unlock()
+		fmt.Fprintf(c, ":%d\r\n", n)
 	case name == "HELLO":
 		c.Write([]byte("%2\r\n+version\r\n+7.0.0\r\n+proto\r\n:3\r\n"))
 	case name == "MULTI":
@@ -100,7 +113,7 @@ func handshake(argv []string) bool {
 		return false
 	}
 	switch strings.ToUpper(argv[0]) {
-	case "HELLO", "PING":
+	case "HELLO", "PING", "CLUSTER", "READONLY":
 		return true
 	case "CLIENT":
 		return len(argv) > 1 && strings.ToUpper(argv[1]) != "CACHING"
